@@ -17,3 +17,5 @@ def run(rep, tier, seed, scratch):
         run_unit(rep, u, u.gen(g, tier), scratch)
     camp_props.run_single(rep, 'C01', tier, seed, 40, 300, allow={'iteration_limit': 400}, families=['convex_qp', 'convex_qp', 'nonlinear'])
     camp_props.run_integration(rep, tier, seed)
+    # single precision: the tolerances asked for are the tolerances used
+    camp_props.run_single(rep, 'C01', tier, seed + 9, 8, 40, allow={'precision': 'Single', 'opt_tol': 1e-6, 'iteration_limit': 200}, families=['convex_qp'], name='single_precision', scaling=False)
